@@ -812,6 +812,10 @@ def _read_asn1_integer(
         tag = header.tag if header else ASN1Tag.universal_tag(TypeTagNumber.INTEGER, False)
 
     raw_int, consumed = _validate_tag(data, tag, header=header, hint=hint)
+    if len(raw_int) == 0:
+        hint_str = f" for {hint}" if hint else ""
+        raise ValueError(f"Expected at least one content octet for integer value{hint_str}")
+
     b_int = bytearray(raw_int)
 
     is_negative = b_int[0] & 0b10000000
